@@ -2174,6 +2174,10 @@ func opcodeCheckMultiSig(op *ParsedOpcode, t *thread) error {
 			// signature must not strip all data pushes from the script code
 			continue
 		}
+		// as for OP_CHECKSIG: a signature made with the FORKID digest signs the script code as it stands
+		if t.hasFlag(scriptflag.EnableSighashForkID) && sighash.Flag(sigInfo.signature[len(sigInfo.signature)-1]).Has(sighash.ForkID) {
+			continue
+		}
 		script = script.removeOpcodeByData(sigInfo.signature)
 		script = script.removeOpcode(bscript.OpCODESEPARATOR)
 	}
